@@ -37,6 +37,10 @@ RULE = ("GET <prefix><path> through a real Application/HTTPServer over a fake tr
         "fixture paths, sibling names sharing the root's prefix, percent-encoded / . \\ NUL and invalid UTF-8, backslashes, long runs; "
         "non-trivial = the path contains a dot segment, an empty segment, an escape or leaves/re-enters the root; distinct by canonical JSON")
 EXHAUSTIVE = {"quick": False, "thorough": False}
+CLAUSE_CAVEATS = [
+    'served_inside_root shows the default-file path is pjoin(a, default_filename) with the root test applied to a; that the joined path is inside root additionally needs default_filename to be a plain file name (true for the configured values the tie uses), not proved as a theorem',
+    "the oracle accepts any 4xx for refused paths (the model's outcomes are 403/404, and 400 for paths with NUL)",
+]
 CLAUSES = {
     "serves, redirects or reveals existence only if the normalized absolute path lies inside root":
         "served_inside_root + handle_inside_root (every filesystem query, opened file and redirect only after the root test passed on the "
